@@ -28,7 +28,26 @@ HMat(r) ==
 
 Cong(r) == [id |-> r.id, out |-> [k \in DOMAIN r.xs |-> Congruence(r.c, r.xs[k])]]
 
-Answer(r) == IF r.kind = "hmat" THEN HMat(r) ELSE Cong(r)
+(***************************************************************************)
+(* kind "onebody": the exactly solvable one-body limit (C06).  h = M D M^T / d^2 *)
+(* with M integer, M^T M = d^2 I, D a sequence of distinct integers given  *)
+(* per column of M (so the columns of M/d are the eigenvectors).  For      *)
+(* occupations nocc (the nocc lowest eigenvalues) and an integer symmetric *)
+(* observable O:  E0 = sum_occ D_i,   tr(rho O) = sum_occ m_i^T O m_i / d^2 *)
+(***************************************************************************)
+OneBodyLimit(r) ==
+  LET n == Len(r.m)
+      order == SortSeq([i \in 1..n |-> i], LAMBDA a, b : r.evals[a] < r.evals[b])
+      occ(k) == {order[i] : i \in 1..k}
+      quad(i, O) == ISum(LAMBDA pq : r.m[pq[1]][i] * O[pq[1]][pq[2]] * r.m[pq[2]][i], (1..n) \X (1..n))
+      gap(k) == IF k = 0 \/ k = n THEN 1 ELSE r.evals[order[k + 1]] - r.evals[order[k]]
+  IN  [id |-> r.id,
+       e0 |-> [s \in 1..2 |-> ISum(LAMBDA i : r.evals[i], occ(r.nocc[s]))],
+       trnum |-> [s \in 1..2 |-> [k \in DOMAIN r.obs |-> ISum(LAMBDA i : quad(i, r.obs[k][s]), occ(r.nocc[s]))]],
+       d2 |-> r.d * r.d,
+       gaps |-> [s \in 1..2 |-> gap(r.nocc[s])]]
+
+Answer(r) == IF r.kind = "hmat" THEN HMat(r) ELSE IF r.kind = "cong" THEN Cong(r) ELSE OneBodyLimit(r)
 
 VARIABLES idx, done
 vars == <<idx, done>>
